@@ -122,14 +122,18 @@ def pow_obligations(chk, repo, w, r5="C08.R5", r6="C08.R6"):
 MANIFEST = {
     "level": "other",
     "technique": "static analysis: abstract interpretation of the field class bodies in a polynomial domain modulo p (operator-"
-                 "wise equality with the quotient-ring operation, reducedness lattice), loop-invariant checking for the Euclid "
-                 "and power routines, call-graph check for operator-dispatched recursion",
+                 "wise equality with the quotient-ring operation, reducedness lattice), loop-invariant checking for the integer and polynomial "
+                 "Euclid routines and the power routines, call-graph check for operator-dispatched recursion",
     "text": "Decides for all elements and int operands of the 12 concrete prime/quadratic/degree-12 classes (plus synthetic dense "
             "moduli and other primes in the thorough tier): every operator's result is the quotient-ring result, stored "
             "reduced, in the operand's class — hence associativity, commutativity, distributivity, neutral elements and negation "
             "are inherited; prime_field_inv is the inverse with inv0(k·p)=0 for every multiple of p (zero test on the residue; an inverse helper the "
             "operators call instead is held to the same contract at each call site); x**n = x^n for every n ≥ 0 by loop invariant, with "
             "no recursion depth proportional to the exponent. The polynomial-Euclid inv() is decided for the quadratic extensions "
-            "(a·inv(a) = 1 on every path of the loop, inv(0) = 0, termination within the degree bound); for degree 12 it is not.",
+            "path by path (a·inv(a) = 1 on every path of the loop, inv(0) = 0, termination within the degree bound) and for every "
+            "degree, 12 included, by a loop schema (R8): init, deg(), the quotient cancels the leading term, the step is "
+            "(hm − lm·r, high − low·r, lm, low) with no truncation loss on every pair of degrees, canonical storage of what deg() "
+            "reads, exit value lm·inv0(low[0]), irreducible modulus — from which the congruences lm·a ≡ low, hm·a ≡ high (mod m), "
+            "the degree bounds and termination follow (argument in vstatic/polyeuclid.py).",
     "note": "Trusted: evaluator model, checker's polynomial/tower arithmetic. p prime is C07.R5.",
 }
